@@ -60,9 +60,17 @@ def absorb_engine(res, eng, path_records, site, describe=None, known=()):
                 res['violations'].append(v)
 
 
+def site_matches(entry, site):
+    import re
+    if entry.get('site') is not None and entry['site'] == site:
+        return True
+    rx = entry.get('site_regex')
+    return rx is not None and re.fullmatch(rx, site) is not None
+
+
 def make_known_attributor(known, site):
     """on_path_end callback: tag violated obligations whose path contains a known witness."""
-    ents = [e for e in known if e.get('status', 'known') == 'known' and e.get('site') == site]
+    ents = [e for e in known if e.get('status', 'known') == 'known' and site_matches(e, site)]
 
     def cb(eng, rec):
         for o in rec['obligations']:
@@ -203,8 +211,8 @@ def main(mod):
         kid = v.get('known')
         if kid is None:
             for e in known:
-                if e.get('status', 'known') == 'known' and e.get('site') == v['site'] \
-                        and e.get('match', 'path') == 'site':
+                if e.get('status', 'known') == 'known' and site_matches(e, v['site']) \
+                        and e.get('match', 'path') == 'site' and e.get('ob') in (None, v.get('ob')):
                     kid = e['id']
                     break
         if kid is not None and known_by_id.get(kid, {}).get('status', 'known') == 'known':
@@ -232,6 +240,11 @@ def main(mod):
     for k, vs in per_site.items():
         if k not in confirmed_sites:
             d = [v for v in vs if 'detail' in v]
+            if getattr(mod, 'NONREPRO', 'harness-error') == 'inconclusive':
+                inconclusive.append(dict(task=vs[0].get('task'), site=k[0], ob=k[1],
+                                         why="symbolic counterexample did not reproduce concretely: %s"
+                                         % (d[0].get('detail') if d else 'not replayed')))
+                continue
             harness_err.append("counterexample at %s/%s did not reproduce on unpatched code: %s"
                                % (k[0], k[1], d[0].get('detail') if d else 'not replayed'))
     for tid, e in errors:
